@@ -219,6 +219,7 @@ func firstDiff(a, b interface{}, path string) string {
 // ---------------------------------------------------------------- building the real schema
 
 type world struct {
+	retyped  int
 	built    *gq.Built
 	schema   graphql.Schema
 	possible map[string][]string // abstract type name -> possible type names (from the model), for runtime choices
@@ -353,6 +354,8 @@ func build(c caseT, w *world) (err error) {
 		return e
 	}
 	w.built = b
+	// the same defaults, configured the way Go programs do: typed slices instead of []interface{} (per slice, at random)
+	w.retyped = retypeDefaults(c.Desc, b, c.Salt)
 	all := len(c.Appended) == 0 && len(c.Initial) == len(c.Desc.Types)
 	if all {
 		inOrder := true
@@ -463,7 +466,7 @@ func litJSON(v ast.Value) interface{} {
 	return obj{"other": fmt.Sprintf("%T", v)}
 }
 
-func canonWire(v interface{}) string { return hx.Canon(gq.ToWire(gq.FromWire(v))) }
+func canonWire(v interface{}) string { return hx.Canon(gq.ToWire(gq.FromWire(untype(v)))) }
 
 // ---------------------------------------------------------------- model response
 
@@ -647,6 +650,15 @@ func main() {
 		if c.Desc.Subscription != nil {
 			run.Tag("has-subscription")
 		}
+		for _, n := range c.Appended {
+			if n == "LateU" || n == "LateHolder" || n == "LateI" {
+				run.Tag("appended-non-implementer-brings-in-implementers-of-existing-interfaces")
+				break
+			}
+		}
+		if w.retyped > 0 {
+			run.Tag("has-defaults-configured-as-typed-slices")
+		}
 		if len(c.Desc.Directives) > 0 {
 			run.Tag("has-custom-directives")
 		}
@@ -722,7 +734,7 @@ func main() {
 					coerced = graphql.VerifValueFromAST(val, gt.(graphql.Input), nil)
 				}()
 				if !md.Reread.OK || canonWire(coerced) != canonWire(md.Reread.V) {
-					run.Violation("valueFromAST of a reported default differs from the model's coerceLit: "+md.Owner, replay(obj{"default": md, "real_coerced": gq.ToWire(coerced)}), false)
+					run.Violation("valueFromAST of a reported default differs from the model's coerceLit: "+md.Owner, replay(obj{"default": md, "real_coerced": gq.ToWire(untype(coerced))}), false)
 					return
 				}
 				roundtrip = canonWire(coerced) == canonWire(md.Value)
@@ -734,7 +746,7 @@ func main() {
 			case !md.Conformant:
 				run.Tag(tag + ":no-roundtrip(outside the quantifier)")
 			default:
-				run.Violation(fmt.Sprintf("a conformant default does not round-trip: %s : %s = %s reported as %q reads back as %s", md.Owner, md.Type, hx.Canon(md.Value), realText, describeReread(ok, coerced)), replay(obj{"default": md, "real_text": realText, "real_coerced": gq.ToWire(coerced)}), false)
+				run.Violation(fmt.Sprintf("a conformant default does not round-trip: %s : %s = %s reported as %q reads back as %s", md.Owner, md.Type, hx.Canon(md.Value), realText, describeReread(ok, coerced)), replay(obj{"default": md, "real_text": realText, "real_coerced": gq.ToWire(untype(coerced))}), false)
 				return
 			}
 		}
